@@ -284,6 +284,7 @@ func check(c Case) error {
 	for _, h := range c.VHtml {
 		val := fmt.Sprint(c.Data[h].Go())
 		exp = strings.ReplaceAll(exp, ` v-html="`+h+`"></div>`, `>`+val+`</div>`)
+		exp = strings.ReplaceAll(exp, ` v-html="`+h+`"></DIV>`, `>`+val+`</DIV>`)
 	}
 	want, err := parse(exp, c.Doc)
 	if err != nil {
@@ -789,7 +790,32 @@ func classify(c Case) (bool, []string) {
 	return nt, cls
 }
 
+var tagNameRe = regexp.MustCompile(`<(/?)([a-z][a-z0-9]*)`)
+
+// respell writes the source in another spelling HTML treats as the same document: upper-case
+// tag names, CRLF line ends. Which one is decided by the source text (Spell 0), so a replay is
+// exact; the expectation is derived from the respelled source.
+func respell(c Case) Case {
+	h := 0
+	for i := 0; i < len(c.Source); i++ {
+		h = h*31 + int(c.Source[i])
+	}
+	if h < 0 {
+		h = -h
+	}
+	switch h % 7 {
+	case 1:
+		if !strings.Contains(c.Source, "<svg") && !strings.Contains(c.Source, "<math") {
+			c.Source = tagNameRe.ReplaceAllStringFunc(c.Source, strings.ToUpper)
+		}
+	case 2:
+		c.Source = strings.ReplaceAll(strings.ReplaceAll(c.Source, "\r\n", "\n"), "\n", "\r\n")
+	}
+	return c
+}
+
 func checkStable(c Case) error {
+	c = respell(c)
 	// only parser-stable sources are in the property's domain
 	if !stable(expectedSource(Case{Source: strings.ReplaceAll(c.Source, ` v-html="`, ` data-vh="`), Data: c.Data, Bound: c.Bound}), c.Doc) {
 		return nil
